@@ -1,7 +1,9 @@
 package props
 
 import (
+	"astverif/ownership"
 	"fmt"
+	"go/token"
 	"go/types"
 
 	"astverif/layout"
@@ -136,6 +138,9 @@ func c01(c *Ctx) {
 	lk.MadeSize(r, "stuffing/newStuffingAdaptationField=writePacketAdaptationField", c.fn("newStuffingAdaptationField"), c.fn("writePacketAdaptationField"), 1)
 	muxstate.ESPairing(c.P, r)
 	c01AFCarried(c)
+	c01StuffingReset(c)
+	// what the demuxer delivers stays what was written: nothing in it aliases a buffer that later reads reuse (rule S3 of C16)
+	r.Floor("S3", "borrowed/owned byte-slice source sites", ownership.BorrowTaint(c.P, r), 10)
 	muxstate.AutoPID(c.P, r, muxstate.RuleAutoPID)
 	r.Floor("A3", "structure fields compared", countPrefix(r, "A3/", "/field/"), 80)
 }
@@ -204,4 +209,123 @@ func c01AFCarried(c *Ctx) {
 		}
 	}
 	r.Floor("S1-af", "attachments of MuxerData.AdaptationField to a packet", n, 1)
+}
+
+// c01StuffingReset: WriteData stores the stuffing it needs into the adaptation field the caller handed in
+// (pkt.AdaptationField aliases d.AdaptationField) and the size budget of the next call is computed from that same field
+// (calcPacketAdaptationFieldLength adds StuffingLength). Rule S1-reset: after every store of a non-zero value into a
+// StuffingLength field inside WriteData, every path to a successful return stores 0 into the StuffingLength of
+// d.AdaptationField — otherwise the next PES written with the same adaptation field object starts with a packet whose
+// budget counts stuffing that is no longer needed, and the packet is padded after the payload. The nil edge of a test of
+// d.AdaptationField is exempt: there is no caller-owned field on it.
+func c01StuffingReset(c *Ctx) {
+	r := c.R
+	f := c.fn("Muxer.WriteData")
+	if f == nil || len(f.Params) < 2 {
+		r.Unknown("S1-reset", "(*Muxer).WriteData/anchor", "", "function not found")
+		return
+	}
+	d := f.Params[1]
+	// loads of d.AdaptationField
+	isCallerAF := func(v ssa.Value) bool {
+		ld, ok := v.(*ssa.UnOp)
+		if !ok || ld.Op != token.MUL {
+			return false
+		}
+		fa, ok := ld.X.(*ssa.FieldAddr)
+		if !ok || fa.X != ssa.Value(d) {
+			return false
+		}
+		n, _ := ssau.FieldName(fa)
+		return n == "AdaptationField"
+	}
+	feasible := func(from *ssa.BasicBlock, succ int) bool {
+		iff, ok := from.Instrs[len(from.Instrs)-1].(*ssa.If)
+		if !ok {
+			return true
+		}
+		cmp, ok := iff.Cond.(*ssa.BinOp)
+		if !ok || (cmp.Op != token.NEQ && cmp.Op != token.EQL) {
+			return true
+		}
+		var other ssa.Value
+		switch {
+		case isCallerAF(cmp.X):
+			other = cmp.Y
+		case isCallerAF(cmp.Y):
+			other = cmp.X
+		default:
+			return true
+		}
+		if k, ok := other.(*ssa.Const); !ok || !k.IsNil() {
+			return true
+		}
+		nilSucc := 1 // `!= nil`: the else edge is the nil edge
+		if cmp.Op == token.EQL {
+			nilSucc = 0
+		}
+		return succ != nilSucc
+	}
+	n := 0
+	for _, b := range f.Blocks {
+		for _, in := range b.Instrs {
+			st, ok := in.(*ssa.Store)
+			if !ok {
+				continue
+			}
+			fa, ok := st.Addr.(*ssa.FieldAddr)
+			if !ok {
+				continue
+			}
+			if name, _ := ssau.FieldName(fa); name != "StuffingLength" {
+				continue
+			}
+			if k, isC := ssau.ConstInt(st.Val); isC && k == 0 {
+				continue
+			}
+			n++
+			res := muxstate.MustReach(f, st, muxstate.Flow{
+				Stop: func(i ssa.Instruction) bool {
+					z, ok := i.(*ssa.Store)
+					if !ok {
+						return false
+					}
+					za, ok := z.Addr.(*ssa.FieldAddr)
+					if !ok || !isCallerAF(za.X) {
+						return false
+					}
+					if name, _ := ssau.FieldName(za); name != "StuffingLength" {
+						return false
+					}
+					k, isC := ssau.ConstInt(z.Val)
+					return isC && k == 0
+				},
+				Bad: func(i ssa.Instruction) string {
+					if i == ssa.Instruction(st) {
+						return "" // the same store in a later iteration keeps the obligation open, it does not end it
+					}
+					if ret, ok := i.(*ssa.Return); ok && !muxstate.ExemptReturn(ret) {
+						return "return without error"
+					}
+					return ""
+				},
+				Feasible: feasible,
+			})
+			key := fmt.Sprintf("(*Muxer).WriteData/stuffing-length-reset#%d", n)
+			var bad []string
+			for _, t := range res.Terminals {
+				if t.Kind == "next-iteration" {
+					continue
+				}
+				bad = append(bad, fmt.Sprintf("%s (%s)", t.Kind, muxstate.PathString(c.P, t.Path)))
+			}
+			if len(bad) == 0 {
+				r.OK("S1-reset", key, c.P.Pos(st.Pos()), "every successful return after this store resets d.AdaptationField.StuffingLength to 0: the next call's size budget starts clean")
+			} else {
+				r.Bad("S1-reset", key, c.P.Pos(st.Pos()), "the stuffing stored into the adaptation field survives a successful WriteData: "+bad[0]+
+					" — the size budget of the next PES written with the same adaptation field counts it again (calcPacketAdaptationFieldLength) and the packet is padded after its payload")
+			}
+		}
+	}
+	r.Floor("S1-reset", "stores of stuffing into an adaptation field inside WriteData", n, 2)
 }
